@@ -129,7 +129,14 @@ func (rs *RecordSet) readFromVersion1(d *decoder) error {
 				// will have relative offsets. The absolute offset can be computed
 				// using the offset from the outer message, which corresponds to the
 				// offset assigned to the last inner message.
+				// The relative offset of the last inner message is not
+				// necessarily the number of messages minus one: log
+				// compaction preserves the relative offsets of the messages
+				// it retains, leaving gaps.
 				lastRelativeOffset := int64(len(r.records)) - 1
+				if len(r.records) != 0 {
+					lastRelativeOffset = r.records[len(r.records)-1].Offset
+				}
 
 				for i := range r.records {
 					r.records[i].Offset = baseOffset - (lastRelativeOffset - r.records[i].Offset)
